@@ -7,6 +7,14 @@ from typing import Callable, Dict
 RULES: Dict[str, str] = {
     # rule id -> 'module:function'
     'R-EQHASH': 'sa.rules.eqhash:run',
+    'R-POS-AFFINITY': 'sa.rules.positions:run_affinity',
+    'R-NEWLINE-PRED': 'sa.rules.positions:run_newline_pred',
+    'R-TOKEN-NONE-TEST': 'sa.rules.positions:run_token_none_test',
+    'R-META-TRIPLES': 'sa.rules.positions:run_meta_triples',
+    'R-SHARED-EFFECTS': 'sa.rules.effects:run_effects',
+    'R-POSTLEX-RESET': 'sa.rules.effects:run_postlex_reset',
+    'R-INDENT-PAIRING': 'sa.rules.indenter:run_pairing',
+    'R-SPLIT-TOTAL': 'sa.rules.indenter:run_split_total',
 }
 
 PROPERTIES: Dict[str, dict] = {}
